@@ -233,6 +233,7 @@ def check(res):
         shutil.rmtree(os.path.join(base, "edit_" + first_tag), ignore_errors=True)
     evals += hostile_surroundings(res, gv, base)
     evals += unmarked_neighbours(res, gv, base)
+    evals += test_variant(res, gv, base)
     # --- declaration and file order inside a package must not matter for a struct's own file
     for r in range(3 if quick else 12):
         sc = dict(pkgs[r % len(pkgs)])
@@ -274,6 +275,57 @@ def check(res):
         "race_runs": 2 if quick else 10, "races": races,
         "samples": [{"packages": [s["id"] for s in pkgs], "gomaxprocs": [1, 2, 16], "repetitions": reps}],
     })
+
+
+def test_variant(res, gv, base):
+    """a package with in-package _test.go files (the analysis driver then also sees the test variant of the package, whose types
+    have the methods declared in the test files): the generated file is the same with and without the test files, in every
+    invocation form"""
+    d = os.path.join(base, "tvar")
+    src = ("package booking\n\ntype Window struct{ From, To int }\n\ntype Tags []string\n\ntype Code string\n\ntype Level int\n\n"
+           "type Booking struct {\n\t//govalid:required\n\tGuest string\n\t//govalid:required\n\tSlot Window\n\t//govalid:minitems=1\n\t//govalid:required\n\tLabels Tags\n"
+           "\t//govalid:enum=a,b\n\tKind Code\n\t//govalid:required\n\tPtr *Window\n\t//govalid:gt=0\n\t//govalid:required\n\tLvl Level\n}\n")
+    tests = {"booking/window_test.go": "package booking\n\nimport \"testing\"\n\nfunc (w Window) IsZero() bool { return w == Window{} }\n\nfunc (w *Window) Validate() error { return nil }\n\n"
+                                      "func (t Tags) Len() int { return len(t) + 1 }\n\nfunc (t Tags) IsZero() bool { return false }\n\nfunc (c Code) String() string { return \"c\" }\n\n"
+                                      "func (c Code) IsZero() bool { return c == \"a\" }\n\nfunc (l Level) IsZero() bool { return l == 7 }\n\nfunc (l Level) Cmp(o Level) int { return 0 }\n\n"
+                                      "func TestNothing(t *testing.T) {}\n",
+             "booking/ext_test.go": "package booking_test\n\nimport \"testing\"\n\nfunc TestExt(t *testing.T) {}\n"}
+    mod = "module tv\n\ngo 1.24.3\n\nrequire github.com/sivchari/govalid v0.0.0\n\nreplace github.com/sivchari/govalid => %s\n" % REPO
+
+    def build(with_tests, patterns, cwd=None):
+        shutil.rmtree(d, ignore_errors=True)
+        os.makedirs(os.path.join(d, "booking"))
+        open(os.path.join(d, "go.mod"), "w").write(mod)
+        shutil.copy(os.path.join(REPO, "go.sum"), os.path.join(d, "go.sum"))
+        open(os.path.join(d, "booking", "booking.go"), "w").write(src)
+        if with_tests:
+            for rel, c in tests.items():
+                open(os.path.join(d, rel), "w").write(c)
+        rcs = []
+        for _ in range(2):
+            rc, log = gen(gv, d, patterns, cwd=os.path.join(d, cwd) if cwd else None)
+            rcs.append(rc)
+        return rcs, log, outputs(d)
+    rcs, log, want = build(False, ["./..."])
+    if any(rcs) or len(want) != 1:
+        res.violation({"kind": "generation-failed", "what": "govalid failed on the package of the test-variant step", "log": log[-1500:]})
+        return 0
+    n = 0
+    for label, patterns, cwd in (("./...", ["./..."], None), ("directory", ["./booking"], None), ("inside the directory", ["."], "booking"), ("single file", ["booking/booking.go"], None)):
+        for procs in (None,):
+            rcs, log, got = build(True, patterns, cwd)
+            n += 1
+            if got != want or any(rcs):
+                diff = sorted(k for k in set(got) | set(want) if got.get(k) != want.get(k))
+                res.violation({"kind": "spec-violation", "invocation": label, "files": diff, "generator_exit": rcs, "log": log[-800:],
+                               "sources": dict(tests, **{"booking/booking.go": src}),
+                               "got": {k: (got.get(k) or b"<missing>").decode("utf8", "replace")[:2500] for k in diff[:1]},
+                               "want": {k: (want.get(k) or b"<missing>").decode("utf8", "replace")[:2500] for k in diff[:1]},
+                               "what": "in-package _test.go files (methods declared there, an external test package) changed the generated file of a struct, or the second run over the generated tree failed"})
+                shutil.rmtree(d, ignore_errors=True)
+                return n
+    shutil.rmtree(d, ignore_errors=True)
+    return n
 
 
 def unmarked_neighbours(res, gv, base):
